@@ -20,7 +20,7 @@ TECHNIQUE = 'differential monitor (with vs without index) with audit-hook eviden
 RULE = ('files from vlib.model.gen_file and writer programs; non-trivial = file with >=2 segments or padded/absent metadata in some segment; '
         'distinct = (family, per-segment signatures, truncated?)')
 ASSUMPTIONS = ['a truncated data file beside a complete index must read like the truncated data file alone']
-REQUIRED = ['with_index_compared', 'index_opened_by_library', 'index_only_opens', 'index_only_data_reads_refused', 'family:model',
+REQUIRED = ['foreign_sibling_index_cases', 'with_index_compared', 'index_opened_by_library', 'index_only_opens', 'index_only_data_reads_refused', 'family:model',
             'family:writer', 'family:truncated', 'family:marker', 'modes:read', 'modes:open', 'modes:read_metadata']
 N = {'quick': 1600, 'thorough': 300000}
 
@@ -131,17 +131,38 @@ def run_case(case, ctx):
         if diffs:
             ctx.violation('with-index-differs/%s/%s/%s' % (m, diffs[0][0], case['fam']), {'diffs': diffs[:4], 'file': desc})
     os.remove(ipath)
+    # ---- an index that belongs to ANOTHER file, under a similar name (<stem>.tdms_index beside <stem>.bin), is not this file's index
+    if case['fam'] == 'model' and case['s'] % 3 == 0:
+        opath = os.path.join(ctx.tmpdir, 'y%d.bin' % os.getpid())
+        sibling = os.path.join(ctx.tmpdir, 'y%d.tdms_index' % os.getpid())
+        other = M.encode_file(M.gen_file(random.Random('c09sib/%d' % case['s']), max_segs=3, max_chans=2))[1]
+        util.write_file(opath, blob)
+        util.write_file(sibling, other)
+        ctx.count('foreign_sibling_index_cases')
+        got = snap(lambda: TdmsFile.read(opath), True)
+        a = without['read']
+        if isinstance(a, tuple) or isinstance(got, tuple):
+            if a != got:
+                ctx.violation('foreign-sibling-index-used/raises-differently', {'without': a if isinstance(a, tuple) else 'ok', 'with': got if isinstance(got, tuple) else 'ok'})
+        elif C.snapshot_diff(a, got):
+            ctx.violation('foreign-sibling-index-used/%s' % C.snapshot_diff(a, got)[0][0], {'diffs': C.snapshot_diff(a, got)[:3], 'file': desc})
+        os.remove(opath)
+        os.remove(sibling)
     # ---- index alone
     if case['fam'] in ('model', 'writer'):
         only = os.path.join(ctx.tmpdir, 'only%d.tdms_index' % os.getpid())
         util.write_file(only, idx)
         ref = without['read_metadata']
+        held_streams = {k_: io.BytesIO(idx) for k_ in ('stream', 'read-stream', 'ctor-stream', 'read_metadata-stream')}
         for m, fn in (('read', lambda: TdmsFile.read(only)), ('open', lambda: TdmsFile.open(only)), ('read_metadata', lambda: TdmsFile.read_metadata(only)),
-                      ('stream', lambda: TdmsFile.open(io.BytesIO(idx))), ('read-stream', lambda: TdmsFile.read(io.BytesIO(idx))),
-                      ('ctor-stream', lambda: TdmsFile(io.BytesIO(idx))), ('read_metadata-stream', lambda: TdmsFile.read_metadata(io.BytesIO(idx)))):
+                      ('stream', lambda: TdmsFile.open(held_streams['stream'])), ('read-stream', lambda: TdmsFile.read(held_streams['read-stream'])),
+                      ('ctor-stream', lambda: TdmsFile(held_streams['ctor-stream'])),
+                      ('read_metadata-stream', lambda: TdmsFile.read_metadata(held_streams['read_metadata-stream']))):
             ctx.count('index_only_opens')
             try:
                 tf = fn()
+                if m.endswith('stream') and held_streams[m].closed:
+                    ctx.violation('index-only/%s/callers-index-stream-closed-by-the-library' % m, {'file': desc})
             except Exception as ex:
                 ctx.violation('index-only/%s/raises/%s' % (m, util.exc_key(ex)), {'exc': util.exc_detail(ex), 'file': desc})
                 continue
@@ -170,4 +191,6 @@ def run_case(case, ctx):
                         ctx.count('index_only_data_reads_refused')
             finally:
                 tf.close()
+                if m.endswith('stream') and held_streams[m].closed:
+                    ctx.violation('index-only/%s/callers-index-stream-closed-by-close' % m, {'file': desc})
         os.remove(only)
